@@ -436,7 +436,7 @@ fn layout_class(case: &Case, text: &str, stderr: &str) -> Option<String> {
             g.cpp = true;
             g.normalise();
             // a failing *instantiation* assertion of a template with bit-fields: known class
-            if (stderr.contains("template specialization") || stderr.contains("_open0_")) && !stderr.contains("[\"Size of N") && g.nodes.iter().any(|n| matches!(n.kind, c07::NodeKind::Template) && n.fields.iter().any(|f| matches!(f, c07::FieldKind::Bitfield(_)))) {
+            if (stderr.contains("template specialization") || stderr.contains("_open0_")) && g.nodes.iter().any(|n| matches!(n.kind, c07::NodeKind::Template) && n.fields.iter().any(|f| matches!(f, c07::FieldKind::Bitfield(_)))) {
                 return Some("layout-assertion/template-instantiation".into());
             }
             let n = failing_cpp_class(stderr)?;
